@@ -8,8 +8,8 @@ SIZES = {"quick": 3000, "thorough": 60000}
 BATCH = 1500
 SHRINK_BUDGET = 400
 RULE = ("each case = the same traffic twice (phase A with reload ops; the op `phase B` clears all module state and runs the recorded "
-        "ops of phase A again without the reloads, at the same virtual times, answering with the list of its decisions): 1-4 resources, initial circuit-breaker (error count / error ratio) and flow (throttling, warm-up, reject) "
-        "rule lists, entries with/without error at time steps from {0,1,…,retry timeout, window length}, 1-3 reloads through "
+        "ops of phase A again without the reloads, at the same virtual times, answering with the list of its decisions): 1-4 resources, initial circuit-breaker (error count / error ratio), flow (throttling, warm-up, reject) and hotspot (QPS reject, per-value "
+        "items) rule lists, entries with/without error at time steps from {0,1,…,retry timeout, window length}, 1-3 reloads through "
         "LoadRules / LoadRulesOfResource whose edits are add / remove / modify / duplicate / reorder / never-refusing sibling "
         "before or after an unchanged rule; non-trivial = a reload happened while some controller held state (a block or a wait "
         "was observed before it) and a block/wait was observed after it; distinct by (rule lists, reload ops, op-kind sequence)")
@@ -45,6 +45,13 @@ def flow_rule(rng, rid, res, inert=False):
     return [rid, res, 1, 0, rng.choice([2, 3, 5, 10, 20, 100]), 0, 0, 0, rng.choice([1, 2, 5, 10]), rng.choice([0, 2, 3, 3, 5]), stativ]
 
 
+def hot_rule(rng, rid, res, inert=False):
+    items = rng.choice([2, 2, 2, 0])
+    sval, sthr = (rng.choice([1, 2, 3]), BIG if inert else rng.choice([0, 1, 4])) if items == 2 else (0, 0)
+    thr = BIG if inert else rng.choice([0, 1, 1, 2, 3, 5])
+    return [rid, res, 1, 0, 0, thr, 0, rng.choice([0, 0, 1, 3]), rng.choice([1, 1, 2, 10]), rng.choice([0, 0, 100]), items, sval, sthr]
+
+
 def enc(rules):
     return ",".join(":".join(str(x) for x in r) for r in rules) if rules else "-"
 
@@ -63,7 +70,7 @@ class G:
         return self.nid
 
     def mk(self, mod, res, inert=False):
-        return (cb_rule if mod == "cb" else flow_rule)(self.rng, self.rid(), res, inert)
+        return {"cb": cb_rule, "flow": flow_rule, "hot": hot_rule}[mod](self.rng, self.rid(), res, inert)
 
     def inert_variant(self, mod, r):
         """`r` with another (never-refusing) threshold: stat-reusable with `r`, not equal"""
@@ -72,8 +79,12 @@ class G:
         if mod == "cb":
             r2[2] = 2 if r[2] == 2 else r[2]
             r2[8] = BIG if r[2] == 2 else (0 if r[8] else 1)
-        else:
+        elif mod == "flow":
             r2[2], r2[3], r2[4] = 0, 0, BIG + 7
+        else:
+            r2[5] = BIG
+            if r2[10] == 2:
+                r2[12] = BIG
         return r2
 
     def edit(self, mod, cur, protect, nres):
@@ -93,6 +104,9 @@ class G:
                 i = rng.choice(others)
                 if mod == "flow" and new[i][3] == 0:
                     new[i][4] += 1
+                elif mod == "hot":
+                    f = rng.choice([5, 7, 8, 12])
+                    new[i][f] = rng.choice([1, 2, 3, new[i][f] + 1])
                 else:
                     f = rng.choice([3, 4, THR[mod], 9] if mod == "cb" else [THR[mod], 7, 10])
                     new[i][f] = rng.choice([1, 2, 3, 1000, 2000, new[i][f] + 1])
@@ -120,7 +134,7 @@ def gen_case(rng, cid):
     g = G(rng)
     nres = rng.choice([1, 2, 2, 3, 4])
     protect = set(rng.sample(range(1, nres + 1), rng.choice([0, 1, 1, min(2, nres)])))
-    mods = rng.choice([["cb"], ["cb"], ["flow"], ["cb", "flow"], ["cb", "flow"]])
+    mods = rng.choice([["cb"], ["cb"], ["flow"], ["flow"], ["hot"], ["hot"], ["cb", "flow"], ["cb", "hot"], ["flow", "hot", "cb"]])
     cur = {}
     now = T0 + rng.choice([0, 1, 499, 500, 999, rng.randint(0, 10 ** 7)])
     A = [f"t {now}"]
@@ -157,7 +171,8 @@ def gen_case(rng, cid):
                 now += rng.choice(steps)
                 A.append(f"t {now}")
             x = hot if rng.random() < 0.7 else rng.randint(1, nres)
-            A.append(f"e {x} {1 if rng.random() < perr else 0}")
+            arg = f" {rng.choice([0, 1, 1, 2, 3])}" if "hot" in mods else ""
+            A.append(f"e {x} {1 if rng.random() < perr else 0}{arg}")
     return Case(cid, A + ["phase B"], tags=(f"nres={nres}", "+".join(mods), f"reloads={len(reload_at)}"))
 
 
@@ -234,7 +249,7 @@ def densify(ops, rng):
     for o in ops[:k]:
         A.append(o)
         if rng.random() < 0.4 and not o.startswith("t "):
-            A.append(f"e {rng.randint(1, 4)} {rng.choice([0, 0, 1])}")
+            A.append(f"e {rng.randint(1, 4)} {rng.choice([0, 0, 1])} {rng.choice([0, 1, 2])}")
     return A + ["phase B"]
 
 
@@ -254,7 +269,7 @@ def nontrivial(case, impl):
                     after = True
                 seen_state = True
     if reloaded and after:
-        kinds = "".join(o[0] if not o.startswith(("cb.", "flow.")) else o.split()[0][-1] for o in case.ops)
+        kinds = "".join(o[0] if not o.startswith(("cb.", "flow.", "hot.")) else o.split()[0][-1] for o in case.ops)
         return hash((tuple(o for o in case.ops if "load" in o), kinds))
     return None
 
